@@ -15,7 +15,7 @@ from sx import Str, Sym
 
 PROP = "C05"
 PROP_FILE = "C05_RoundTrip"
-THEOREMS = ['c05_escape', 'c05_escape_pattern', 'c05_escape_relex', 'c05_escape_pattern_relex']
+THEOREMS = ['c05_escape', 'c05_escape_pattern', 'c05_escape_relex', 'c05_escape_pattern_relex', 'c05_expr_roundtrip_partial', 'c05_expr_roundtrip_rest_partial']
 
 MANIFEST = {
     "text": "Round trip text -> AST -> text -> AST checked on the implementation for generated expressions, policies, templates and policy sets (ASTs rendered with minimal / full / redundant parentheses, random whitespace and comments; exhaustive constructor-pair nesting table; unary minus and i64 boundary texts; call styles of every extension function; reserved words; escape forms); escape/unescape and the expression printer are modelled in Gallina, proved (unescape . escape = id, pattern likewise) and compared with the implementation.",
